@@ -52,9 +52,44 @@ func VerifC15Load() {
 	// 0: single-writer chain; 1: two writers, local + remote heads;
 	// 2: a replicated another writer's chain and then wrote again (the cached
 	//    remote heads are stale ancestors of the newer local head)
-	shape := vstub.NdChoice("shape", 3)
+	// 3: two writers' concurrent branches MERGED by a later entry of one of them
+	//    (one head whose history holds more entries than its Lamport time), loaded
+	//    by a reader-only replica whose cache holds that single head
+	shape := vstub.NdChoice("shape", 4)
 	var full []string
-	if shape == 0 {
+	reloadName, reloadCache := "a", envA.Cache
+	if shape == 3 {
+		bw, _ := openWith("b", blocks, nil, nil)
+		if bw == nil || t < 3 {
+			return
+		}
+		nb := 1
+		if t >= 5 {
+			nb = 2
+		}
+		addN(bw, nb, 'b')
+		addN(a, t-nb-1, 'a')
+		if err := a.Sync(context.Background(), bw.OpLog().Heads().Slice()); err != nil {
+			vstub.Fail("C15 Sync failed")
+			return
+		}
+		vstub.WaitIdle()
+		addN(a, 1, 'm') // the merging entry
+		c, envC := openWith("c", blocks, nil, nil)
+		if c == nil {
+			return
+		}
+		if err := c.Sync(context.Background(), a.OpLog().Heads().Slice()); err != nil {
+			vstub.Fail("C15 Sync failed")
+			return
+		}
+		vstub.WaitIdle()
+		vstub.Assert(c.OpLog().Len() == t && len(c.OpLog().Heads().Slice()) == 1, "C15 harness: the reader holds the merged log under one head")
+		_ = a.Close()
+		a = c
+		reloadName, reloadCache = "c", envC.Cache
+		vstub.Cover("merged-branches-one-head")
+	} else if shape == 0 {
 		addN(a, t, 'a')
 	} else if shape == 2 {
 		bw, _ := openWith("b", blocks, nil, nil)
@@ -99,7 +134,7 @@ func VerifC15Load() {
 	amount := vstub.NdInt("amount")
 	// with several cached heads the load is also run under schedule exploration
 	// (then the limit is passed per call: the option route is independent of scheduling)
-	explore := shape != 0 && vstub.Param("P", 1) > 0 && vstub.NdChoice("explore", 2) == 1
+	explore := shape != 0 && shape != 3 && vstub.Param("P", 1) > 0 && vstub.NdChoice("explore", 2) == 1
 	viaOption := !explore && vstub.NdChoice("viaMaxHistory", 2) == 1
 	var mh *int
 	callAmount := amount
@@ -107,7 +142,7 @@ func VerifC15Load() {
 		mh = &amount
 		callAmount = -1 + vstub.NdChoice("callArg", 2) // -1 or 0: both mean "use MaxHistory"
 	}
-	r, _ := openWith("a", blocks, envA.Cache, mh)
+	r, _ := openWith(reloadName, blocks, reloadCache, mh)
 	if r == nil {
 		return
 	}
